@@ -192,6 +192,11 @@ def run(repo: Repo, rep: Report, tier: str) -> None:
     check_primitive_pairs(repo, rep, pm)
     check_fresh_per_iteration(repo, rep)
     check_variant_selection(repo, rep)
+    # ---- absent is None, not falsy ---------------------------------------------------------
+    from ..lints import zero_legal_truthiness
+    rep.rule("none-not-falsy", "PDU / primitive parameters whose falsy value is legal (b'' response, 0 codes, 0 = unlimited, False role) are tested with `is None`")
+    n_t = zero_legal_truthiness(repo, rep, "none-not-falsy", {"server_response", "primary_field", "secondary_field", "maximum_length", "maximum_length_received", "result", "source", "reason", "diagnostic", "result_source", "abort_source", "provider_reason", "scu_role", "scp_role"}, modules=("pdu", "pdu_items", "pdu_primitives"))
+    rep.floor("truthiness tests on zero-legal PDU fields (all allow-listed)", n_t, 5)
 
 
 def enc_offsets(got, rows):
